@@ -164,7 +164,7 @@ def analyse(src, s, e, kind, op, trivia, compound, extra_lines=(), extra_seps=()
         starts_line = lines[s[0]][:s[1]].strip(' \t\x0c(') == ''
         # leading comments: own-line comments strictly between the previous code line and the element line
         own_b = [i for i in gap_b if T[i][1] and prev_code_line < T[i][2][0] < s[0] and lines[T[i][2][0]][:T[i][2][1]].strip() == '']
-        if starts_line and lead_mode != 'none':
+        if starts_line and lead_mode != 'none' and op != 'insert':     # a pure insertion overwrites nothing: no leading trivia either
             if lead_mode == 'block':
                 ln = s[0] - 1
                 by_line = {T[i][2][0]: i for i in own_b}
@@ -665,6 +665,16 @@ def run_edit(src, edit, root=None):
         pend = _node_span(lines, lst[idx - 1])[1][0]
         cpos = {t.string: t.start[0] - 1 for t in toks(src) if t.type == tokenize.COMMENT}
         v = [x for x in v if not (x['cls'] == 'comment-moved-off-its-line' and cpos.get(x['detail'][0]) == pend)]
+    if v and op == 'insert' and kind == 'expr' and idx < len(lst):
+        # inserting in front of an element that has leading comment lines: the (empty) target slice's LEADING trivia is that comment
+        cpos = {t.string: t.start[0] - 1 for t in toks(src) if t.type == tokenize.COMMENT}
+        lo_ = _node_span(lines, lst[idx - 1])[1][0] if idx > 0 else -1
+        hi_ = _node_span(lines, lst[idx])[0][0]
+        for x in v:
+            if x['cls'] == 'comment-lost' and lo_ < cpos.get(x['detail'], -9) < hi_:
+                x['cls'] = 'comment-lost@insert-before-leading-comment'
+            elif x['cls'] == 'line-changed' and lo_ < x['detail'][0] < hi_ and str(x['detail'][1]).strip().startswith('#'):
+                x['cls'] = 'line-changed@insert-before-leading-comment'
     if v and op == 'insert' and kind == 'expr' and idx == len(lst) and idx > 0:
         # appending after the last element: the (empty) target slice's trailing trivia is the previous element's line comment
         cpos = {t.string: t.start[0] - 1 for t in toks(src) if t.type == tokenize.COMMENT}
@@ -785,7 +795,7 @@ def classify(it):
                      'oracle': [v['cls'] for v in it['violations']]}))
         return out
     for v in it['violations']:
-        out.append((f'C04|{it["op"]}|{it["field"]}|{v["cls"]}', v['what'],
+        out.append((f'C04|{it["op"]}|{it["field"].rstrip(".")}|{v["cls"]}', v['what'],
                     {'src': it['src'], 'edit': it['edit'], 'after': it.get('after'), 'detail': v.get('detail')}))
     return out
 
@@ -1584,4 +1594,167 @@ def linecont_product():
                                           'trivia': tr, 'options': {}, 'via': 'slice', 'fieldarg': fa, 'one': False}))
             out.append((src, {'op': 'insert', 'kind': 'expr', 'path': path, 'pkind': kind, 'field': fld, 'idx': n, 'code': code,
                               'trivia': True, 'options': {}, 'via': 'slice', 'fieldarg': fa, 'one': False}))
+    return out
+
+
+# ---------------------------------------------------------------------------------------------------------------------
+# par / unpar accessors on nested EXPRESSIONS, then a second edit on the parent expression (same live tree): after every
+# step the tree equals a fresh parse, only the two parenthesis tokens change, and the second edit gives the same text as on a
+# fresh parse of the same source
+
+UP_TEMPLATES = ['x = a or(b)if c else d', 'x = k<(b)if c else d', 'x = a+(b)if c else d', 'x = not(b)if c else d', 'x = a if(b)else c',
+                'x = [i for i in(a)if c]', 'x = a and(b)or c', 'x = é or(ü)if c else d', 'x = a or (b) if c else d', 'x = -(b)if c else d',
+                'x = a<b<(c)if d else e', 'x = (a)if b else c', 'x = f(a or(b)if c else d, 1)', 'assert a or(b), m', 'x = a or(b)\ny = 1',
+                'x = a or(  # c\n b)if c else d', 'x = a if b else(c)\n', 'x = lambda: a or(b)if c else d']
+UP_SECOND = ['replace', 'par', 'copy', 'replace_self']
+
+
+def squeeze_parens(src, rng, p=0.8):
+    """delete the blanks between a parenthesis and an adjoining alphanumeric token (`a or (b) if c` -> `a or(b)if c`), same AST"""
+    try:
+        ref = ast.dump(ast.parse(src))
+        ts = [t for t in toks(src) if t.type not in NONSIG]
+    except Exception:
+        return src
+    lines = src.split('\n')
+    cuts = []
+    for k in range(len(ts) - 1):
+        a, b = ts[k], ts[k + 1]
+        if a.end[0] != b.start[0] or b.start[1] <= a.end[1] or a.type == tokenize.COMMENT:
+            continue
+        if (a.string == ')' and (b.string[:1].isalnum() or b.string[:1] == '_')) or (b.string == '(' and a.type == tokenize.NAME and
+                                                                                       a.string in ('or', 'and', 'not', 'in', 'if', 'else', 'is')):
+            if rng.random() < p:
+                cuts.append((a.end[0] - 1, a.end[1], b.start[1]))
+    for ln, c1, c2 in sorted(cuts, reverse=True):
+        new = lines[:]
+        new[ln] = new[ln][:c1] + new[ln][c2:]
+        try:
+            if ast.dump(ast.parse('\n'.join(new))) == ref:
+                lines = new
+        except Exception:
+            pass
+    return '\n'.join(lines)
+
+
+def run_unpar_history(src, hist):
+    """hist = {'op': 'unpar-history', 'path', 'pkind', 'field', 'second'}"""
+    from fst import FST
+    item = {'src': src, 'edit': hist, 'op': 'unpar-history', 'field': hist['pkind'], 'violations': [], 'changed': False, 'outcome': 'ok',
+            'bad_spans': []}
+    root = FST(src, 'exec')
+    f = _nav(root, hist['path'])
+    _fill_caches(root, f)
+    try:
+        if f.pars().n:
+            f.unpar()
+        else:
+            f.par(force=True)
+    except Exception as ex:
+        item['outcome'] = 'raised:' + type(ex).__name__
+        return item
+    src2 = root.src
+    item['after'] = src2
+    item['changed'] = src2 != src
+    v = []
+    try:
+        if ast.dump(ast.parse(src2)) != ast.dump(ast.parse(src)):
+            item['outcome'] = 'changes-structure'       # removing parentheses that were needed is the caller's request, not judged
+            return item
+    except SyntaxError:
+        item['outcome'] = 'unparsable-accessor'
+        return item
+    try:
+        tb = [t.string for t in toks(src) if t.type not in NONSIG]
+        ta = [t.string for t in toks(src2) if t.type not in NONSIG]
+        nb, na = [x for x in tb if x not in '()'], [x for x in ta if x not in '()']
+        it_ = iter(nb)
+        if not (all(x in it_ for x in na) and all(x.startswith('#') for x in nb if x not in na)) or abs(len(tb) - len(ta)) > 2 * 3 + 2:
+            # (comments inside the removed parentheses may go with them)
+            v.append({'cls': 'outside-text-changed', 'what': 'par / unpar changed tokens other than parentheses', 'detail': [src2]})
+    except Exception:
+        item['outcome'] = 'untokenizable'
+        return item
+    if not v and (d := _tree_vs_parse(root)):
+        v.append({'cls': 'tree!=parse', 'what': 'after par / unpar of a nested expression the tree differs from a fresh parse: ' + d[:300],
+                  'detail': [d[:300]]})
+    if not (v and v[0]['cls'] == 'outside-text-changed') and len(hist['path']) > 1:
+        # second edit on the parent expression: live tree vs fresh parse of the same source
+        ppath = hist['path'][:-1]
+        res = []
+        for r in (root, FST(src2, 'exec')):
+            try:
+                p = _nav(r, ppath if hist['second'] != 'replace_self' else hist['path'])
+                if not p.is_expr:
+                    res.append(None)
+                    continue
+                if hist['second'] in ('replace', 'replace_self'):
+                    p.replace('"s"', raw=False)
+                    res.append((r.src, None))
+                elif hist['second'] == 'par':
+                    p.par(force=True)
+                    res.append((r.src, None))
+                else:
+                    res.append((r.src, p.copy().src))
+            except Exception as ex:
+                res.append(('raised:' + type(ex).__name__, None))
+        if res[0] is not None and res[1] is not None and res[0] != res[1] and not (res[0][0].startswith('raised') and res[1][0].startswith('raised')):
+            v.append({'cls': 'live-vs-fresh-differs', 'what': f'{hist["second"]} of the parent expression after par / unpar of its child gives '
+                      f'{res[0]!r} on the live tree and {res[1]!r} on a fresh parse of the same source', 'detail': {'live': res[0], 'fresh': res[1]}})
+            item['after'] = res[0][0]
+            v.insert(0, v.pop())        # text consequences first
+    item['violations'] = v
+    if v:
+        item['outcome'] = 'violation'
+    return item
+
+
+def _paren_targets(src):
+    """paths of expression nodes that carry grouping parentheses (chosen with pfst's own pars(); the oracle does not use it)"""
+    from fst import FST
+    try:
+        tree = ast.parse(src)
+        root = FST(src, 'exec')
+    except Exception:
+        return []
+    out = []
+    for n in ast.walk(root.a):
+        if isinstance(n, ast.expr) and not isinstance(n, (ast.Starred, ast.Slice)) and getattr(n, 'f', None) is not None:
+            try:
+                if n.f.pars().n and n.f.parent is not None:
+                    pth = root.child_path(n.f)
+                    out.append(([(af.name, af.idx) for af in pth], type(n.f.parent.a).__name__))
+            except Exception:
+                pass
+    return out
+
+
+def unpar_history_cases(arg):
+    src0, seed, per = arg
+    rng = random.Random(seed)
+    src = squeeze_parens(src0, rng)
+    tg = _paren_targets(src)
+    rng.shuffle(tg)
+    out = []
+    import hashlib
+    for path, pkind in tg[:per]:
+        for second in (UP_SECOND if per > 50 else [rng.choice(UP_SECOND)]):
+            hist = {'op': 'unpar-history', 'path': path, 'pkind': pkind, 'field': '', 'second': second}
+            try:
+                it = run_unpar_history(src, hist)
+            except Exception as ex:
+                it = {'src': src, 'edit': hist, 'op': 'unpar-history', 'field': pkind, 'violations': [], 'changed': False,
+                      'outcome': 'harness:' + type(ex).__name__ + ':' + str(ex)[:80], 'bad_spans': []}
+            it['key'] = hashlib.blake2b((src + repr(hist)).encode(), digest_size=8).hexdigest()
+            if not it['violations']:
+                it.pop('after', None)
+                it['src'] = it['src'][:300]
+            out.append(it)
+    return out
+
+
+def unpar_product_cases(_=None):
+    out = []
+    for t in UP_TEMPLATES:
+        out += unpar_history_cases((t, 0, 99))
     return out
